@@ -29,6 +29,9 @@ func (a addr) String() string  { return string(a) }
 // to read blocks the managed thread until bytes are fed or the peer closes; without
 // one it returns io.EOF (the script is exhausted: the peer went away).
 type Conn struct {
+	// CloseErr is what Close reports (the connection is closed all the same): a TLS or
+	// TCP connection that was reset cannot deliver its farewell and says so
+	CloseErr   error
 	mu         sync.Mutex
 	in         bytes.Buffer
 	PeerClosed bool // no more input will come: Read returns EOF when drained
@@ -77,7 +80,11 @@ func NewConn(name string) *Conn { return &Conn{Name: name} }
 func (c *Conn) Feed(b []byte) { c.mu.Lock(); c.in.Write(b); c.wake(); c.mu.Unlock() }
 
 // PendingIn returns the bytes fed but not yet read.
-func (c *Conn) PendingIn() []byte { c.mu.Lock(); defer c.mu.Unlock(); return append([]byte{}, c.in.Bytes()...) }
+func (c *Conn) PendingIn() []byte {
+	c.mu.Lock()
+	defer c.mu.Unlock()
+	return append([]byte{}, c.in.Bytes()...)
+}
 
 // ClosePeer marks the end of the peer's stream.
 func (c *Conn) ClosePeer() { c.mu.Lock(); c.PeerClosed = true; c.wake(); c.mu.Unlock() }
@@ -153,7 +160,7 @@ func (c *Conn) Close() error {
 	c.Closed = true
 	c.wake()
 	c.mu.Unlock()
-	return nil
+	return c.CloseErr
 }
 func (c *Conn) LocalAddr() net.Addr                { return addr("127.0.0.1:40056") }
 func (c *Conn) RemoteAddr() net.Addr               { return addr("10.1.1.1:50000") }
@@ -237,7 +244,7 @@ func ClientFrame(opcode byte, payload []byte) []byte {
 }
 
 // SendText feeds a text message from the client.
-func (w *WS) SendText(s string) { w.Raw.Feed(ClientFrame(websocket.TextMessage, []byte(s))) }
+func (w *WS) SendText(s string)   { w.Raw.Feed(ClientFrame(websocket.TextMessage, []byte(s))) }
 func (w *WS) SendBinary(b []byte) { w.Raw.Feed(ClientFrame(websocket.BinaryMessage, b)) }
 func (w *WS) SendClose()          { w.Raw.Feed(ClientFrame(websocket.CloseMessage, []byte{0x03, 0xe8})) }
 
